@@ -140,6 +140,9 @@ pub fn run(ctx: &mut Ctx) {
             *r.pick(&[2047, 2048, 2049, 3000, 4097, 5000, 10000, 65535, 65536, 65537, 70000, 131073])
         } else if k % 25 == 24 {
             1000
+        } else if k % 50 == 13 {
+            // the usual way to say "no limit" (terminating families only, see below)
+            *r.pick(&[i32::MAX, i32::MAX - 1])
         } else {
             *r.pick(&[-1, 0, 1, 2, 3, 5, 10, 17, 40, 100])
         };
@@ -147,7 +150,7 @@ pub fn run(ctx: &mut Ctx) {
         let cap: usize = if big_limit { 100_000 } else if k % 25 == 24 { 500 } else if k % 50 == 7 { *r.pick(&[usize::MAX, usize::MAX - 1, usize::MAX / 2 + 1]) } else { *r.pick(&[0, 1, 2, 3, 5, 8, 20, 500]) };
         // ---- program families --------------------------------------------------------------
         // (budgets beyond 10000: the diverging family only - its state stays small, so the shadow stays linear)
-        let family = if big_limit && limit > 10000 { 1 } else if big_limit { k / 40 % 2 } else { k % 8 };
+        let family = if limit >= i32::MAX - 1 { 2 } else if big_limit && limit > 10000 { 1 } else if big_limit { k / 40 % 2 } else { k % 8 };
         let mut s = if family >= 5 { gen::snap(&mut r, &StateOpts { vals: Vals::Small, max_depth: 3, graphs: false, io: true, bindings: true, flags: false, random_cfg: false }, &alphabet) } else { Snap::empty() };
         s.e.clear();
         s.q = false;
